@@ -183,6 +183,13 @@ def laguerre_der_seq(ns, alpha, x):
         d/dx of generalized laguerre polynomials evaluated at the given points
 
     """
+    # d/dx L_n^alpha = -L_(n-1)^(alpha+1), and zero for n = 0
     k = 1
-    ns = [n-k for n in ns]
-    return laguerre_seq(ns, alpha+k, x)
+    ns = list(ns)
+    out = np.zeros((len(ns), *x.shape), dtype=x.dtype)
+    # ns is ascending, so orders below k (zero derivative) lead the list
+    i = sum(1 for n in ns if n < k)
+    if i < len(ns):
+        out[i:] = -laguerre_seq([n-k for n in ns[i:]], alpha+k, x)
+
+    return out
